@@ -203,15 +203,30 @@ func genTxnProgram(r *hx.Rng) *Program {
 			p.Ops = append(p.Ops, Op{S: s, Kind: "rollback"})
 		case x < 36:
 			p.Ops = append(p.Ops, Op{S: s, Kind: "dcommit"})
-		case x < 56:
+		case x < 52:
 			p.Ops = append(p.Ops, Op{S: s, Kind: "read"})
+		case x < 59:
+			// the other database: often the session's first reference to it, in the middle of a transaction
+			p.Ops = append(p.Ops, Op{S: s, Kind: "reado"})
+		case x < 68:
+			// the extra autocommit session (index NSess) commits to otherdb.t
+			k := r.Range(1, 4)
+			switch r.Intn(4) {
+			case 0, 1:
+				p.Ops = append(p.Ops, Op{S: p.NSess, Kind: "inso", Key: k, Row: genRow(r)})
+			case 2:
+				c := r.Intn(nCols)
+				p.Ops = append(p.Ops, Op{S: p.NSess, Kind: "updo", Key: k, Col: c, V: genCell(r, c)})
+			default:
+				p.Ops = append(p.Ops, Op{S: p.NSess, Kind: "delo", Key: k})
+			}
 		default:
 			p.Ops = append(p.Ops, genWrite(r, s))
 		}
 	}
 	// everybody reads twice more and finishes
 	for s := 0; s < p.NSess; s++ {
-		p.Ops = append(p.Ops, Op{S: s, Kind: "read"})
+		p.Ops = append(p.Ops, Op{S: s, Kind: "read"}, Op{S: s, Kind: "reado"})
 	}
 	for s := 0; s < p.NSess; s++ {
 		p.Ops = append(p.Ops, Op{S: s, Kind: "commit"})
@@ -234,6 +249,13 @@ func witnessPrograms() []*Program {
 			{S: 0, Kind: "begin"}, {S: 1, Kind: "begin"},
 			{S: 0, Kind: "upd", Key: 1, Col: 0, V: Int(1)}, {S: 1, Kind: "upd", Key: 1, Col: 1, V: Str("y")},
 			{S: 0, Kind: "commit"}, {S: 1, Kind: "read"}, {S: 1, Kind: "commit"}, {S: 0, Kind: "read"}}},
+		// first reference to the other database in the middle of a transaction, after a commit there
+		{Mode: "txn", NSess: 2, Ops: []Op{
+			{S: 2, Kind: "inso", Key: 1, Row: r0},
+			{S: 0, Kind: "begin"}, {S: 0, Kind: "read"},
+			{S: 2, Kind: "inso", Key: 2, Row: r0}, {S: 2, Kind: "updo", Key: 1, Col: 0, V: Int(2)},
+			{S: 0, Kind: "reado"}, {S: 0, Kind: "reado"}, {S: 0, Kind: "commit"}, {S: 0, Kind: "reado"},
+			{S: 1, Kind: "auto0"}, {S: 2, Kind: "delo", Key: 2}, {S: 1, Kind: "reado"}, {S: 1, Kind: "commit"}}},
 		{Mode: "txn", NSess: 2, Ops: []Op{
 			{S: 0, Kind: "ins", Key: 1, Row: r0}, {S: 0, Kind: "dcommit"},
 			{S: 0, Kind: "begin"}, {S: 1, Kind: "begin"},
